@@ -58,7 +58,8 @@ class Run:
         self.cfg = P.PROPS[prop]
         self.t0 = time.time()
         self.work = os.path.join(ROOT, ".work", f"{prop}-{os.getpid()}")
-        os.makedirs(self.work, exist_ok=True)
+        os.makedirs(os.path.join(self.work, "blobs"), exist_ok=True)
+        self.env = dict(os.environ, VERIF_BLOBDIR=os.path.join(self.work, "blobs"), GOMEMLIMIT="12GiB")
         os.makedirs(os.path.join(ROOT, "evidence", "replays"), exist_ok=True)
         self.log = []
         self.viol = []
@@ -175,7 +176,7 @@ class Run:
 
     # ------------------------------------------------------------------ K + O
     def gen_cases(self, family, tier, seed, extra_args=()):
-        rc, o, e = sh([os.path.join(BIN, "vh"), "gen", family, tier, str(seed)] + list(extra_args))
+        rc, o, e = sh([os.path.join(BIN, "vh"), "gen", family, tier, str(seed)] + list(extra_args), env=self.env)
         if rc != 0:
             self.say("generator failed", family, e[-500:]); raise SystemExit(2)
         return [l for l in o.split("\n") if l]
@@ -191,8 +192,7 @@ class Run:
         binp = os.path.join(BIN, "vh-noasm" if variant == "noasm" else "vh")
         req, exp = os.path.join(self.work, tag + ".req"), os.path.join(self.work, tag + ".exp")
         inp = ("\n".join(cases) + "\n").encode()
-        env = dict(os.environ, GOMEMLIMIT="8GiB")
-        p = subprocess.run([binp, "impl", req, exp], input=inp, stdout=subprocess.PIPE, stderr=subprocess.PIPE, env=env)
+        p = subprocess.run([binp, "impl", req, exp], input=inp, stdout=subprocess.PIPE, stderr=subprocess.PIPE, env=self.env)
         lines = p.stdout.decode("utf-8", "replace").split("\n")
         if lines and lines[-1] == "": lines.pop()
         if p.returncode != 0 or len(lines) != len(cases):
@@ -333,6 +333,7 @@ class Run:
             best = sorted(conc, key=lambda v: len(v.case or ""))[0] if conc else real[0]
             h = hashlib.sha1(json.dumps(best.to_json(), sort_keys=True).encode()).hexdigest()[:10]
             replay_path = os.path.join(ROOT, "evidence", "replays", f"{self.prop}-{h}.json")
+            self.persist_blobs(best, replay_path)
             rep = dict(property=self.prop, tier=self.tier, seed=self.seed, violation=best.to_json(),
                        others=[v.to_json() for v in real if v is not best][:20],
                        rerun=f"./check {self.prop} --replay {replay_path}")
@@ -350,6 +351,21 @@ class Run:
             rc = 1
         self.evidence(len(real))
         return rc
+
+    def persist_blobs(self, v, replay_path):
+        """copy the blob files a case refers to next to the replay file and rewrite the references"""
+        if not v.case or "@" not in v.case: return
+        bdir = replay_path[:-5] + ".blobs"
+        os.makedirs(bdir, exist_ok=True)
+        def repl(m):
+            src = m.group(1)
+            try:
+                dst = os.path.join(bdir, os.path.basename(src))
+                if os.path.exists(src): shutil.copy(src, dst)
+                return "@" + dst
+            except Exception:
+                return m.group(0)
+        v.case = re.sub(r"@([^\s#:]+)", repl, v.case)
 
     def evidence(self, nviol):
         cfg = self.cfg
